@@ -344,11 +344,14 @@ ExtCancelBody ==
   /\ UNCHANGED <<bs, buf, wake, wseq, idlePending, pend, tasks, pull, now, outcome, phase, next, tickLog, pubs, mon>>
 ExtCancel == Quiescent /\ ExtCancelBody
 
-Advance ==
+NextTimerAt == LET m == CHOOSE w \in wake : \A v \in wake : w.at <= v.at IN IF m.at > now THEN m.at ELSE now
+\* time passes to t, at or after the next timer (after: the event loop was held up past the deadline -- the timer fires late)
+AdvanceTo(t) ==
   /\ Live /\ Quiescent /\ wake # {}
-  /\ now' = LET m == CHOOSE w \in wake : \A v \in wake : w.at <= v.at IN IF m.at > now THEN m.at ELSE now
+  /\ t >= NextTimerAt /\ now' = t
   /\ now' > now
   /\ UNCHANGED <<bs, buf, wake, wseq, idlePending, pend, tasks, pull, mailbox, outcome, phase, next, ncancel, tickLog, pubs, mon>>
+Advance == wake # {} /\ AdvanceTo(NextTimerAt)
 
 Env == (\E t \in tasks : WorkerFinish(t)) \/ (\E m \in ExtMenu : ExtSend(m)) \/ ExtCancel \/ Advance
 
